@@ -7,7 +7,11 @@ from ..tfl import build, corner, nets, read
 
 CLI_NETS = [dict(start=([1, 16, 16, 16], "int8"), steps=["conv3x3", "cpu_neg", "dw3x3"]),
             dict(start=([1, 8, 8, 8], "int8"), steps=["logistic"]),
-            dict(start=([1, 16, 16, 8], "int16"), steps=["conv1x1", "add_const"])]
+            dict(start=([1, 16, 16, 8], "int16"), steps=["conv1x1", "add_const"]),
+            # third-party custom operators (kept for the CPU) before, between and without accelerated operators
+            dict(start=([1, 8, 8, 8], "int8"), steps=["maxpool2x2", "cpu_custom"]),
+            dict(start=([1, 8, 8, 8], "int8"), steps=["maxpool2x2", "cpu_custom", "maxpool2x2"]),
+            dict(start=([1, 8, 8, 8], "int8"), steps=["cpu_custom"])]
 
 
 def cli_cases(tier):
